@@ -3,7 +3,7 @@
 From Coq Require Import List ZArith NArith Bool.
 From Coq.Strings Require Import Byte.
 Import ListNotations.
-From BWTable Require Import Cells Fmt StrOrder Sort SortProofs SortSpec Limit.
+From BWTable Require Import Cells Fmt StrOrder Sort SortProofs SortSpec Limit Reduce ReduceSpec.
 Open Scope Z_scope.
 
 (* the repairs applied to /repo so far (the model follows the CURRENT tree) *)
@@ -181,6 +181,140 @@ Definition e2e12_verdict (outs : list binding) (keys seen : list skey) (lim : op
             end
           else v1
       | None => v
+      end
+  end.
+
+(* ---- Table.Reduce / GROUP BY ------------------------------------------------------------------------------- *)
+Definition cur_fixes : pg_fixes := mkFixes true true true.   (* repo commits 3cb5b46+6f0bb79, 7999921, 33c29dc *)
+
+(* float64 results: the model does not know Go's rendering of the sum, compare the value only *)
+Definition cell_agree (m o : cell) : bool :=
+  match m, o with
+  | CL a, CL b => match l_val a, l_val b with
+                  | VFloat x, VFloat y => sf_eqb x y
+                  | _, _ => cell_eqb m o
+                  end
+  | _, _ => cell_eqb m o
+  end.
+Definition row_agree (bs : list binding) (m o : row) : bool :=
+  forallb (fun b => match rget m b, rget o b with
+                    | Some x, Some y => cell_agree x y
+                    | None, None => true
+                    | _, _ => false
+                    end) bs.
+Fixpoint rows_agree (bs : list binding) (m o : list row) : bool :=
+  match m, o with
+  | [], [] => true
+  | x :: m', y :: o' => row_agree bs x y && rows_agree bs m' o'
+  | _, _ => false
+  end.
+Fixpoint remove_agree (bs : list binding) (r : row) (l : list row) : option (list row) :=
+  match l with
+  | [] => None
+  | x :: t => if row_agree bs r x then Some t else option_map (cons x) (remove_agree bs r t)
+  end.
+Fixpoint multiset_agree (bs : list binding) (m o : list row) : bool :=
+  match m with
+  | [] => match o with [] => true | _ => false end
+  | r :: m' => match remove_agree bs r o with Some o' => multiset_agree bs m' o' | None => false end
+  end.
+Fixpoint bindings_eqb (a b : list binding) : bool :=
+  match a, b with
+  | [], [] => true
+  | x :: a', y :: b' => N.eqb x y && bindings_eqb a' b'
+  | _, _ => false
+  end.
+
+(* outcome codes of observations: 0 ok, 1 error, 2 panic *)
+Definition reduce_verdict (bs : list binding) (c : sort_cfg) (aaps : list aap) (inp : list row)
+    (outcome : N) (obs : list binding) (out : list row) : N :=
+  let t := mkTable bs inp in
+  let small := Nat.leb (length inp) 12 in
+  (* more than 12 rows and a key column of several kinds: rowLess is no strict weak order, pdqsort's output is
+     unspecified and so is the grouping; only the spec comparison below is made *)
+  let unspecified := negb small && match c with Some ks => negb (homogeneous ks inp) | None => false end in
+  let agree :=
+    match reduce c aaps t, outcome with
+    | Ok m, 0%N => bindings_eqb (t_bindings m) obs &&
+                   (if small then rows_agree obs (t_rows m) out
+                    else if unspecified then true else multiset_agree obs (t_rows m) out)
+    | Err EReduceConfig, 1%N => bindings_eqb bs obs && rows_agree bs inp out
+    | Err _, 1%N => bindings_eqb bs obs &&
+                    match reduce_leftover (@go_isort row) c t with
+                    | Ok l => if small then rows_agree bs (t_rows l) out else multiset_agree bs (t_rows l) out
+                    | _ => false
+                    end
+    | Panic _, 2%N => true
+    | _, _ => false
+    end in
+  let v := verdict (rows_fmt_ok inp) agree false in
+  (* the property: one row per distinct key combination with the right aggregates (4 = the engine agrees with the
+     model but not with the spec) *)
+  if N.eqb v 0 && N.eqb outcome 0 then
+    match c with
+    | Some ks =>
+        match spec_reduce (map k_b ks) aaps inp with
+        | Ok sp => if multiset_agree obs sp out then v else 4%N
+        | _ => 4%N
+        end
+    | None => v
+    end
+  else v.
+
+(* GROUP BY through the planner.  outcome: 0 ok, 1 execution error, 2 panic *)
+Definition resolve_group (projs : list proj) (g : binding) : binding :=
+  match find (fun p => match p_alias p with Some a => N.eqb a g | None => N.eqb (p_bind p) g end) projs with
+  | Some p => p_bind p
+  | None => g
+  end.
+
+Definition all_cells (f : cell -> bool) (b : binding) (rows : list row) : bool :=
+  forallb (fun r => match rget r b with Some c => f c | None => false end) rows.
+Definition is_int_cell (c : cell) : bool := match c with CL l => match l_val l with VInt _ => true | _ => false end | _ => false end.
+Definition is_float_cell (c : cell) : bool := match c with CL l => match l_val l with VFloat _ => true | _ => false end | _ => false end.
+
+(* the aggregates the PROPERTY asks for: sum is defined on all-int64 and on all-float64 columns *)
+Definition spec_aaps (projs : list proj) (rows : list row) : option (list aap) :=
+  fold_right (fun p acc =>
+    match acc with
+    | None => None
+    | Some l =>
+        let k := match p_op p with
+                 | OpNone => Some AccNone
+                 | OpCount => Some (if p_distinct p then AccCountDistinct else AccCount)
+                 | OpSum => if all_cells is_int_cell (p_bind p) rows then Some AccSumInt
+                            else if all_cells is_float_cell (p_bind p) rows then Some AccSumFloat else None
+                 end in
+        match k with Some k => Some (mkAap (p_bind p) (proj_out p) k :: l) | None => None end
+    end) (Some []) projs.
+
+Definition e2e11_verdict (group_by : list binding) (projs : list proj) (bs : list binding) (base : list row)
+    (exact : bool) (outcome : N) (obs : list binding) (out : list row) : N :=
+  let outs := map proj_out projs in
+  let model := bind (project_and_group_by cur_fixes group_by projs (mkTable bs base))
+                    (fun t => Ok (match t_rows t with [] => mkTable outs [] | _ => t end)) in
+  let small := exact && Nat.leb (length base) 12 in
+  let unspecified := negb (Nat.leb (length base) 12) &&
+                     negb (homogeneous (build_cfg cur_fixes group_by projs []) base) in
+  let agree :=
+    match model, outcome with
+    | Ok m, 0%N => bindings_eqb (t_bindings m) obs &&
+                   (if small then rows_agree obs (t_rows m) out
+                    else if unspecified then true else multiset_agree obs (t_rows m) out)
+    | Err _, 1%N => true
+    | Panic _, 2%N => true
+    | _, _ => false
+    end in
+  let v := verdict (rows_fmt_ok base) agree false in
+  if negb (N.eqb v 0) then v else
+  (* the property *)
+  match spec_aaps projs base with
+  | None => if N.eqb outcome 0 then 8%N else v      (* no sum is defined: a result (instead of an error) is wrong *)
+  | Some sa =>
+      match spec_reduce (map (resolve_group projs) group_by) sa base with
+      | Ok sp => if N.eqb outcome 0 then (if bindings_eqb outs obs && multiset_agree obs sp out then v else 4%N)
+                 else 7%N                            (* the property demands a result, the engine failed *)
+      | _ => v
       end
   end.
 
